@@ -5716,7 +5716,7 @@ class NameCheckVisitor(node_visitor.ReplacingNodeVisitor):
                         *[arg.val for arg in arg_values],
                         **{key: value.val for key, value in kw_values},
                     )
-                except Exception as e:
+                except (Exception, SystemExit) as e:  # e.g. an annotation that calls exit()
                     self.log(logging.INFO, "exception calling", (callee_wrapped, e))
                 else:
                     if result is NotImplemented:
